@@ -4,14 +4,18 @@ import "verifharness/internal/core"
 
 // Registry maps property ids to their runners.
 var Registry = map[string]func(*core.Ctx){
-	"C04": RunC04,
-	"C05": RunC05,
-	"C11": RunC11,
-	"C12": RunC12,
-	"C13": RunC13,
-	"C14": RunC14,
-	"C15": RunC15,
-	"C20": RunC20,
+	"C02":   RunC02,
+	"C04":   RunC04,
+	"C06":   RunC06,
+	"C07":   RunC07,
+	"C05":   RunC05,
+	"C08":   RunC08,
+	"C11":   RunC11,
+	"C12":   RunC12,
+	"C13":   RunC13,
+	"C14":   RunC14,
+	"C15":   RunC15,
+	"C20":   RunC20,
 	"SMOKE": RunSmoke,
 }
 
@@ -24,4 +28,6 @@ func RegisterOnly(c *core.Ctx) {
 	registerKexKinds(c)
 	registerChunkKinds(c)
 	registerVoucherKinds(c)
+	registerServerKinds(c)
+	registerRedirectKind(c)
 }
